@@ -80,7 +80,7 @@ func runProve(c *mc.Ctx, keys []keyT, alphas []named) {
 		p.Decode(i, d[:])
 		k, al, f := keys[d[0]], alphas[d[1]], formats[d[2]]
 		a := apiFor(f)
-		tr := refvrf.Prove(f, k.ref, al.b)
+		tr := proveRef(f, k.ref, al.b)
 		w.Eval("prove/"+f.String(), true)
 		extra := []string{"key", k.desc, "alpha_desc", al.desc, "seed", hexs(k.ref.Seed)}
 		pi := a.prove(k.sk, al.b)
@@ -151,7 +151,7 @@ func runRandomized(c *mc.Ctx, keys []keyT, alphas []named) {
 		p.Decode(i, d[:])
 		k, al, f := keys[d[0]], alphas[d[1]], formats[d[2]]
 		a := apiFor(f)
-		tr := refvrf.Prove(f, k.ref, al.b)
+		tr := proveRef(f, k.ref, al.b)
 		w.Eval("randomized/"+f.String(), true)
 		extra := []string{"key", k.desc, "alpha_desc", al.desc, "seed", hexs(k.ref.Seed)}
 		type rd struct {
